@@ -34,9 +34,13 @@ func (i *Interp) splitSym(s, sep *Term, limit int) []value {
 		if !i.branch(StrContains(cur, sep)) {
 			break
 		}
-		k := StrIndexOf(cur, sep, TInt(0))
-		parts = append(parts, StrSubstr(cur, TInt(0), k))
-		cur = StrSubstr(cur, IntBin("+", k, StrLenInt(sep)), StrLenInt(cur))
+		// cur = piece ++ sep ++ rest with no separator inside piece (fresh variables
+		// keep the constraints flat instead of nesting substr/indexof terms)
+		piece := i.fresh("$piece", SStr, 0)
+		rest := i.fresh("$rest", SStr, 0)
+		i.pc = append(i.pc, Eq(cur, StrConcat(StrConcat(piece, sep), rest)), Not(StrContains(piece, sep)))
+		parts = append(parts, piece)
+		cur = rest
 	}
 	return append(parts, cur)
 }
